@@ -627,7 +627,7 @@ def r_unsafe_guard(cx, fx):
     cx.count(rule, "unsafe_blocks", n)
 
 
-def r_bom_const(cx, fx):
+def r_bom_const(cx, fx, source_views=False):
     """The byte-order mark is looked at nowhere but in Lexer::new (what `new` does with it: LEA rule R-BOM-ORDER)."""
     rule = "R-BOM-USERS"
     cx.rules_run.append(rule)
@@ -643,6 +643,49 @@ def r_bom_const(cx, fx):
     cx.ob(rule, "bom-users", bool(users) and set(users) <= {"Lexer::new"}, "",
           "the BOM is only looked at in Lexer::new" if users and set(users) <= {"Lexer::new"} else "BOM referenced in %s" % sorted(set(users)))
     cx.count(rule, "users", len(users))
+    if not source_views:
+        return
+    # Nothing but `new` views the source text *from its beginning*: a prefix range (`..x`, `0..x`, `..`) or a whole-text
+    # scan of `self.source` covers the skipped mark, so counts / searches over it differ by the mark (C17).  Views
+    # with an explicit start (token ranges) are what the lexer uses everywhere else.
+    cx.rules_run.append("R-BOM-VIEWS")
+    WHOLE_TEXT = {"chars", "char_indices", "bytes", "lines", "find", "rfind", "split", "rsplit", "matches", "starts_with",
+                  "strip_prefix", "trim", "trim_start", "as_bytes", "to_string", "to_owned", "split_at", "encode_utf16"}
+    views = 0
+    for fname, b in fx.bodies.items():
+        if fx.is_derive(fname) or b["kind"] not in ("Fn", "AssocFn") or not fname.startswith("Lexer::") or fname == "Lexer::new":
+            continue
+        for x, _ in F.walk(b["hir"]):
+            k = x.get("k")
+            rng = None
+            if k == "MethodCall" and is_self_field(x["recv"], "source"):
+                views += 1
+                if x.get("name") == "get" and x.get("args"):
+                    rng = F.strip(x["args"][0])
+                elif x.get("name") in WHOLE_TEXT:
+                    cx.ob("R-BOM-VIEWS", "%s|source.%s" % (fname.replace("Lexer::", ""), x["name"]), False, F.file_line(F.site(x)),
+                          "%s scans the whole source text with `self.source.%s(..)`: the text starts with the byte-order mark "
+                          "that Lexer::new skipped, so the result depends on its presence" % (fname, x["name"]))
+                    continue
+            elif k == "Index" and is_self_field(x["base"], "source"):
+                views += 1
+                rng = F.strip(x["idx"])
+            if rng is None:
+                continue
+            ok = False
+            if rng.get("k") == "Struct":
+                fields = {f["name"]: f["e"] for f in rng.get("fields", [])}
+                st_e = fields.get("start")
+                ok = st_e is not None and F.lit_of(st_e) != ("int", 0)
+            elif rng.get("k") in ("Call", "MethodCall") and "Range" in (rng.get("ty") or ""):
+                # RangeInclusive::new(start, end)
+                a = F.call_args(rng)
+                ok = bool(a) and F.lit_of(a[0]) != ("int", 0) and "RangeTo" not in (rng.get("ty") or "")
+            cx.ob("R-BOM-VIEWS", "%s|source-view" % fname.replace("Lexer::", ""), ok, F.file_line(F.site(x)),
+                  "the source is viewed from an explicit start offset" if ok else
+                  "%s views the source text from its beginning (range without a start): the view covers the byte-order mark "
+                  "Lexer::new skipped, so whatever is counted or searched in it depends on the mark's presence" % fname)
+    cx.count("R-BOM-VIEWS", "source_views", views)
 
 
 def r_eof(cx, fx):
@@ -854,3 +897,53 @@ def r_comutate(cx, tags):
         cx.ob(rule, "all-mutators|%s" % tag, not hits, "", "every length-changing method updates the scalar fields coupled to the container "
               "(%d structs, %d containers, %d couplings)" % (stats["structs"], stats["containers"], stats["coupled"]) if not hits else "%d deviant mutator(s)" % len(hits))
     cx.count(rule, "structs", structs)
+
+
+# ---------------------------------------------------------------------------
+# R-ERRORS-APPEND-ONLY (C09, C14): the diagnostics list only grows
+
+ERR_READONLY = {"len", "is_empty", "iter", "last", "first", "get", "as_slice", "clone", "contains", "capacity",
+                "reserve", "into_iter", "to_vec", "binary_search_by_key", "iter_mut_never"}
+ERR_APPEND = {"push", "extend", "extend_from_slice", "push_within_capacity"}
+
+
+def r_errors_append_only(cx, fx):
+    """`Lexer.errors` is written by `push` only and moved out once at the end.  Diagnostics are not part of the
+    checkpoint (R-SPEC-PURITY: none is recorded while one is live), so any removal or rewrite - retain, truncate,
+    pop, clear, sort, a fresh assignment - drops or disturbs a diagnostic whose recovery token is already in the
+    buffer.  Who-may-write rule over the resolved field, not over text."""
+    rule = "R-ERRORS-APPEND-ONLY"
+    cx.rules_run.append(rule)
+    appends = 0
+    for fname, b in fx.bodies.items():
+        if fx.is_derive(fname) or b["kind"] not in ("Fn", "AssocFn") or not fname.startswith("Lexer::"):
+            continue
+        for node, par in F.walk(b["hir"]):
+            k = node.get("k")
+            if k == "MethodCall":
+                r = F.strip(node["recv"])
+                while r.get("k") in ("AddrOf", "Unary") and r.get("e"):
+                    r = F.strip(r["e"])
+                if not is_self_field(r, "errors"):
+                    continue
+                name = node.get("name")
+                key = "%s|errors.%s" % (fname.replace("Lexer::", ""), name)
+                if name in ERR_APPEND:
+                    appends += 1
+                    cx.ob(rule, key, True, F.file_line(F.site(node)), "appends a diagnostic")
+                elif name in ERR_READONLY:
+                    cx.ob(rule, key, True, F.file_line(F.site(node)), "reads the diagnostics", nontrivial=False)
+                else:
+                    cx.ob(rule, key, False, F.file_line(F.site(node)),
+                          "`self.errors.%s(..)` in %s: the diagnostics list is append-only (it is not rolled back and nothing "
+                          "may be taken out of it); a removed or reordered diagnostic leaves its recovery token without the "
+                          "error that explains it" % (name, fname))
+            elif k in ("Assign", "AssignOp"):
+                l = F.strip(node["l"])
+                if is_self_field(l, "errors"):
+                    cx.ob(rule, "%s|errors=" % fname.replace("Lexer::", ""), False, F.file_line(F.site(node)),
+                          "`self.errors` is re-assigned in %s: the diagnostics list is append-only" % fname)
+            elif k == "AddrOf" and node.get("mut") and is_self_field(node.get("e") or {}, "errors"):
+                cx.ob(rule, "%s|&mut errors" % fname.replace("Lexer::", ""), False, F.file_line(F.site(node)),
+                      "`&mut self.errors` escapes in %s: the rule cannot follow what is done to the diagnostics list" % fname)
+    cx.count(rule, "append_sites", appends)
